@@ -391,6 +391,75 @@ def corpus_panics(fs):
     return found
 
 
+def trial_formats_unbounded(ses, rep, fs="full"):
+    """T  format_if_expression formats each branch first as a trial (to measure it) and then for real. A trial at the REAL width recurses into the
+    same trial one level down, so the work doubles per nesting level (`if .. else if .. else if ..`): on every path, each child expression
+    is handed to a formatter with a bounded shape (column_width not usize::MAX) at most once - every other call is at infinite width.
+    Shape's own methods are executed, so `with_infinite_width()` shows as the constant usize::MAX."""
+    flagged = []
+    inl = lambda n, g: canon(n).split("::")[-1] in ("with_infinite_width", "with_column_width", "reset", "increment_additional_indent", "increment_block_indent", "with_indent",
+                                                    "indent", "add_width") and g.params and re.search(r"(Shape|Indent)$", g.params[0][1].strip().lstrip("&"))
+    ex = ses.executor("lib", fs, inline=inl, max_depth=3)
+    ex.max_block_visits = 2
+    try:
+        fn = ses.need(ex, "format_if_expression")
+    except Inconclusive:
+        return flagged
+    args = [RefV(ex.fresh_lazy(t.lstrip("&").strip(), p)) if t.startswith("&") else ex.fresh_lazy(t, p) for p, t in fn.params]
+    ci = ex.enums.field_index("Shape", "column_width")
+    n = 0
+    for pi, o in enumerate(ex.run(fn, args)):
+        if o.kind != "return":
+            continue
+        per = {}
+        for t in o.trace:
+            if t[0] not in ("havoc", "effect") or not re.search(r"(^|::)(format_|hang_)[a-z_]*$", t[1]):
+                continue
+            snap = [deref_val(ex, o.state, a) for a in ((t[4] if len(t) > 4 else t[2]) or [])]
+            nodes = [a for a in snap if isinstance(a, Lazy) and re.search(r"(^|::)Expression$", a.ty.strip())]
+            shapes_ = [a for a in snap if isinstance(a, (Agg, Lazy)) and re.search(r"(^|::)Shape$", str(getattr(a, "ty", "")).strip())]
+            if not nodes or not shapes_:
+                continue
+            s0 = shapes_[0]
+            bounded = True
+            if isinstance(s0, Agg) and ci is not None and ci < len(s0.fields):
+                cw = deref_val(ex, o.state, s0.fields[ci])
+                if isinstance(cw, Sym):
+                    v_ = z3.simplify(cw.t)
+                    bounded = not (z3.is_bv_value(v_) and v_.as_long() == 2 ** 64 - 1)
+            if bounded:
+                per.setdefault(nodes[-1].oid, []).append(t[1].split("::")[-1])
+        n += 1
+        twice = {k: v for k, v in per.items() if len(v) > 1}
+        r, m = ses.obligation(f"trial-format/format_if_expression/path{pi}/each-branch-bounded-at-most-once", list(o.pc), z3.BoolVal(bool(twice)),
+                              "a branch is formatted at the real width at most once per path; trials use infinite width")
+        if r == "sat":
+            flagged.append((f"trial-format/format_if_expression/path{pi}", f"format_if_expression formats the same branch at the real width more than once ({sorted(twice.values())[:2]}): "
+                            "nested if-expressions take time exponential in their depth", "trial-format", {}))
+    if n == 0:
+        raise Inconclusive("format_if_expression: no returning path")
+    return flagged
+
+
+def if_chain_time():
+    import time
+    binp = common.native_build("full")
+    worst, wsrc = 0.0, ""
+    for depth in (10, 16, 20):
+        src = "local value_of_the_chain = " + "".join(f"if condition_number_{i} then result_value_number_{i} else " for i in range(depth)) + "final_fallback_value\n"
+        t = time.time()
+        try:
+            subprocess.run([binp, "--syntax", "luau", "-"], input=src.encode(), capture_output=True, timeout=25)
+            dt = time.time() - t
+        except subprocess.TimeoutExpired:
+            dt = 25.0
+        if dt > worst:
+            worst, wsrc = dt, src
+        if worst > 8.0:
+            break
+    return worst, wsrc
+
+
 def deep_nesting_time():
     """nested call shapes that are formatted in well under a second when trial formatting is bounded"""
     import time
@@ -679,6 +748,10 @@ def run(ses, rep):
     # C, D
     flagged += shape_arith(ses, rep)
     flagged += heuristics_guard(ses, rep)
+    try:
+        flagged += trial_formats_unbounded(ses, rep)
+    except Inconclusive as e:
+        rep.add("trial-format/encodable", "inconclusive", str(e)[:300], nontrivial=False)
     # B
     for fs in ("default", "full"):
         flagged += census(ses, rep, fs)
@@ -726,6 +799,13 @@ def run(ses, rep):
                 rep.add(oid, st, f"{what}: {hit['source']!r} {hit['flags']} panicked at {hit['panic_at']}")
             else:
                 rep.add(oid, "inconclusive", f"{what}: no parenthesised-prefix program panics on the native build")
+        elif kind == "trial-format":
+            t, src = if_chain_time()
+            if t > 8.0:
+                st = rep.violation({"obligation": "trial-format"}, {"what": what, "source": src, "flags": ["--syntax", "luau"], "seconds": round(t, 1)})
+                rep.add(oid, st, f"{what}: a {len(src)}-byte if-expression chain took {t:.1f}s")
+            else:
+                rep.add(oid, "inconclusive", f"{what}: if-expression chains of depth 10..20 are formatted in at most {t:.2f}s")
         elif kind == "heuristics":
             t, src = deep_nesting_time()
             if t > 8.0:
@@ -759,7 +839,7 @@ def replay(path):
         binp = common.native_build("default")
         t = time.time()
         try:
-            subprocess.run([binp, "-"], input=r["source"].encode(), capture_output=True, timeout=25)
+            subprocess.run([common.native_build("full")] + list(r.get("flags", [])) + ["-"], input=r["source"].encode(), capture_output=True, timeout=25)
             dt = time.time() - t
         except subprocess.TimeoutExpired:
             dt = 25.0
